@@ -42,7 +42,12 @@ type C16Case struct {
 	Max2  int            `json:"max2"` // a larger limit for the prefix law
 	Fuzzy bool           `json:"fuzzy"`
 	Count bool           `json:"counts"`
+	// Bulk > 0: the requesting buffer also declares that many accounts "bulk:c000" .. (more names than
+	// any limit below 200 lets through)
+	Bulk int `json:"bulk,omitempty"`
 }
+
+func c16BulkName(i int) string { return fmt.Sprintf("bulk:c%03d", i) }
 
 type nameSet struct {
 	all    map[string]bool // every name that exists (soundness)
@@ -194,6 +199,12 @@ func (c *C16Case) buffer(disk string) (text string, line int) {
 		disk += nl
 	}
 	pre := disk + nl
+	for i := 0; i < c.Bulk; i++ {
+		pre += "account " + c16BulkName(i) + nl
+	}
+	if c.Bulk > 0 {
+		pre += nl
+	}
 	if c.Sit.Header != "" {
 		pre += c.Sit.Header + nl
 	}
@@ -280,6 +291,10 @@ func c16Check(c *C16Case) (ds []ev.Discrepancy, nontrivial bool) {
 				v.core = map[string]bool{}
 			}
 		}
+	}
+	for i := 0; i < c.Bulk; i++ {
+		names.accounts.all[c16BulkName(i)] = true
+		names.accounts.core[c16BulkName(i)] = true
 	}
 	var ns *nameSet
 	switch c.Sit.Kind {
@@ -601,6 +616,11 @@ func genC16(t *rapid.T, p *gen.Profile) *C16Case {
 		if strings.ContainsAny(s.Fragment, ":,") {
 			s.Fragment = ""
 		}
+	}
+	if c.Max >= 50 && !p.Off("c16.bulk") && rapid.IntRange(0, 3).Draw(t, "bulk") == 0 {
+		// more existing names than most limits let through: the limit is what bounds the list, nothing else
+		c.Bulk = rapid.IntRange(101, 160).Draw(t, "nbulk")
+		s = C16Sit{Kind: "account", Header: header, Before: indent, Fragment: rapid.SampledFrom([]string{"bulk:c", "", "BULK:C", "bulk:c1", "bu"}).Draw(t, "bulkfrag")}
 	}
 	c.Sit = s
 	return c
